@@ -117,7 +117,7 @@ func PathOf(v ssa.Value) string {
 // hasher, a builder). "" = no such reading.
 func (st *provState) helperResult(c *ssa.CallCommon, idx int) string {
 	fn := StaticCallee(c)
-	if !PrivateHelper(fn) || st.depth >= 3 || len(fn.Params) != len(c.Args) || len(fn.Blocks) > 12 {
+	if !PrivateHelper(fn) || st.depth >= 2 || len(fn.Params) != len(c.Args) || len(fn.Blocks) > 12 {
 		return ""
 	}
 	sub := &provState{memo: map[ssa.Value]string{}, busy: map[ssa.Value]bool{}, bind: map[*ssa.Parameter]string{}, depth: st.depth + 1}
@@ -144,11 +144,13 @@ func (st *provState) helperResult(c *ssa.CallCommon, idx int) string {
 			}
 		}
 	})
+	visited := map[ssa.Value]bool{}
 	var dependsOnStateful func(v ssa.Value, depth int) bool
 	dependsOnStateful = func(v ssa.Value, depth int) bool {
-		if v == nil || depth > 12 {
+		if v == nil || depth > 24 || visited[v] {
 			return false
 		}
+		visited[v] = true
 		if uses[Unwrap(v)] >= 2 {
 			return true
 		}
@@ -622,6 +624,11 @@ func (st *provState) call(c *ssa.CallCommon, v ssa.Value) string {
 			}
 			if complete {
 				return exp
+			}
+		} else if v != nil && fn.Signature.Results().Len() == 1 {
+			// several blocks (a default plus a guarded value): the one expression its returns agree on
+			if p := st.helperResult(c, 0); p != "" {
+				return p
 			}
 		}
 	}
